@@ -28,6 +28,22 @@ import (
 type batch struct {
 	txn  *badger.Txn
 	list []func() error
+	// expireBase is the clock reading all ttl entries of this batch count from (taken at the first one)
+	expireBase time.Time
+}
+
+// entryWithTTL builds an entry that lives for AT LEAST ttl seconds. Badger keeps the deadline in whole
+// seconds, rounded down, and treats an entry as gone as soon as the wall-clock second reaches it: a
+// deadline of now+ttl would end the entry up to a second early (at once for ttl 1 just before a second
+// boundary). Round up instead, and let every entry of one batch - the revision record and the version of
+// one write - count from the same clock reading, so that they share their deadline.
+func (b *batch) entryWithTTL(key []byte, val []byte, ttl int64) *badger.Entry {
+	if b.expireBase.IsZero() {
+		b.expireBase = time.Now()
+	}
+	entry := badger.NewEntry(key, val)
+	entry.ExpiresAt = uint64(b.expireBase.Unix() + ttl + 1)
+	return entry
 }
 
 func (b *batch) PutIfNotExist(key []byte, val []byte, ttl int64) {
@@ -45,7 +61,7 @@ func (b *batch) PutIfNotExist(key []byte, val []byte, ttl int64) {
 		} else if errors.Is(err, badger.ErrKeyNotFound) {
 			// value not exist
 			if ttl != 0 {
-				entry := badger.NewEntry(key, val).WithTTL(time.Duration(ttl) * time.Second)
+				entry := b.entryWithTTL(key, val, ttl)
 				return b.txn.SetEntry(entry)
 			}
 			return b.txn.Set(key, val)
@@ -79,7 +95,7 @@ func (b *batch) CAS(key []byte, newVal []byte, oldVal []byte, ttl int64) {
 			return err
 		}
 		if ttl != 0 {
-			entry := badger.NewEntry(key, newVal).WithTTL(time.Duration(ttl) * time.Second)
+			entry := b.entryWithTTL(key, newVal, ttl)
 			return b.txn.SetEntry(entry)
 		}
 		return b.txn.Set(key, newVal)
@@ -90,7 +106,7 @@ func (b *batch) CAS(key []byte, newVal []byte, oldVal []byte, ttl int64) {
 func (b *batch) Put(key []byte, val []byte, ttl int64) {
 	f := func() error {
 		if ttl != 0 {
-			entry := badger.NewEntry(key, val).WithTTL(time.Duration(ttl) * time.Second)
+			entry := b.entryWithTTL(key, val, ttl)
 			return b.txn.SetEntry(entry)
 		}
 		return b.txn.Set(key, val)
